@@ -144,6 +144,17 @@ var c15Docs = []string{
 	c15Head + `<div style="position:running(r)">run</div><style>@page{@bottom-center{content:element(r)}}</style><div style="position:fixed;bottom:0;right:0">fx</div><div style="position:absolute;top:3px;left:30px;z-index:2;background:#eee">ab</div><div style="position:relative;z-index:1;opacity:.5">re</div><p>n1 n2 n3 n4 n5 n6 n7 n8 n9 n10 n11 n12 n13 n14</p>`,
 }
 
+// 9 attachments (files embedded once each, in document order) and file annotations
+func init() {
+	var b strings.Builder
+	b.WriteString(c15Head)
+	b.WriteString(`<link rel="attachment" href="data:text/plain,doc-level" title="dl">`)
+	for k := 0; k < 7; k++ {
+		fmt.Fprintf(&b, `<p><a rel="attachment" href="data:text/plain,file%d" download="f%d.txt">att %d</a> <a rel="attachment" href="data:text/plain,file%d">again</a></p>`, k, k, k, (k+3)%7)
+	}
+	c15Docs = append(c15Docs, b.String())
+}
+
 // 9, 10: the same font family name bound to different fonts by each document's own @font-face, with ex / ch units
 func init() {
 	for _, f := range []string{"weasyprint.otf", "AHEM____.TTF"} {
